@@ -14,6 +14,9 @@ case = [rows, args, pairs, mode]
    pairs = [[p, q]] ...                              (arguments of distance)
    mode  = bit0: also run summary()/clustering() and compare the printed numbers
            bit1: pass `platforms` as a list instead of a set
+           bit2: metamorphic run on the implementation itself: the same calls on the table with
+                 every platform renamed (injectively), the rows inserted in reverse order and every
+                 count multiplied by 7 must give the same values (1e-9 relative; NaN = NaN)
 """
 from __future__ import annotations
 
@@ -52,9 +55,12 @@ def parse_q(s):
     return Fraction(int(n), int(d))
 
 
-def snap(obs, ref):
+def snap(obs, ref, abs_tol=0):
     """Canonicalise an observed float against the exact reference: the reference
-    string itself when it agrees within 1e-9 relative, else a description."""
+    string itself when it agrees within 1e-9 relative, else a description.
+    abs_tol is non-zero only for tables with negative counts (outside the property's
+    domain, compared with M only): there float cancellation leaves 1e-16 where the
+    exact value is 0, which no relative tolerance accepts."""
     if isinstance(obs, list) and obs[0] != "F":            # ["Err", name]
         return obs
     if obs == "NaN":
@@ -66,7 +72,7 @@ def snap(obs, ref):
     if math.isinf(f):
         return "float inf"
     d = abs(Fraction(f) - r)
-    if d <= REL * abs(r) or (r == 0 and f == 0.0):
+    if d <= REL * abs(r) or (r == 0 and f == 0.0) or (abs_tol and d <= abs_tol):
         return ref
     return f"float {f!r}"
 
@@ -216,7 +222,7 @@ class C07(Check):
             if quick and (k % 4) != rot:
                 continue
             rows = [[subsets3[i], cs[i]] for i in range(8)]
-            out.append([rows, args3, prs3, 0])
+            out.append([rows, args3, prs3, 4 if k % 3 == 0 else 0])
         # all tables over <= 2 platforms where each of the 4 rows is absent or has a count in {0,1,2,5}
         P2 = ["A", "B"]
         subsets2 = [[p for i, p in enumerate(P2) if m >> i & 1] for m in range(4)]
@@ -254,6 +260,8 @@ class C07(Check):
                 mode |= 1
             if rng.random() < 0.3:
                 mode |= 2
+            if rng.random() < 0.5:
+                mode |= 4
             args = [None, []]
             for _ in range(rng.randint(1, 4)):
                 pool = names + ["Zabsent"]
@@ -322,7 +330,51 @@ class C07(Check):
             out["plats"] = ["Err", type(e).__name__]
         if mode & 1:
             out["report"] = self._report(report, setmap, rows)
+        if mode & 4:
+            out["meta"] = self._meta(report, rows, args, prs, mode, out)
         return out
+
+    @staticmethod
+    def _meta(report, rows, args, prs, mode, base):
+        ren = lambda n: "r:" + n  # noqa  (injective)
+        setmap2 = {}
+        for (s, c) in reversed(rows):
+            setmap2[frozenset(ren(p) for p in s)] = 7 * c
+
+        def call(f, *a):
+            try:
+                return fl(f(*a))
+            except Exception as e:  # noqa
+                return ["Err", type(e).__name__]
+
+        def mk(a):
+            if a is None:
+                return None
+            a2 = [ren(p) for p in reversed(a)]
+            return a2 if (mode & 2) else set(a2)
+
+        other = {"cov": [call(report.coverage, setmap2, mk(a)) for a in args],
+                 "avg": [call(report.average_coverage, setmap2, mk(a)) for a in args],
+                 "dist": [call(report.distance, setmap2, ren(p), ren(q)) for (p, q) in prs],
+                 "div": [call(report.divergence, setmap2)]}
+        try:
+            other["plats"] = sorted(report.extract_platforms(setmap2))
+        except Exception as e:  # noqa
+            other["plats"] = ["Err", type(e).__name__]
+
+        def close(x, y):
+            if x == "NaN" or y == "NaN" or x[0] != "F" or y[0] != "F":
+                return x == y
+            a, b = float(x[1]), float(y[1])
+            return abs(a - b) <= 1e-9 * max(abs(a), abs(b))
+        for k in ("cov", "avg", "dist", "div"):
+            mine = base[k] if k != "div" else [base[k]]
+            for i, (x, y) in enumerate(zip(mine, other[k])):
+                if not close(x, y):
+                    return f"{k}[{i}] changes under rename/reorder/scale: {x} -> {y}"
+        if isinstance(base["plats"], list) and other["plats"] != sorted(ren(p) for p in base["plats"]):
+            return "extract_platforms changes under rename/reorder/scale"
+        return "same"
 
     def _report(self, report, setmap, rows):
         rep = {}
@@ -376,6 +428,9 @@ class C07(Check):
 
     def _with_report(self, case, ref):
         rows, args, prs, mode = case
+        if mode & 4:
+            ref = dict(ref)
+            ref["meta"] = "same"
         if not (mode & 1):
             return ref
         ref = dict(ref)
@@ -413,10 +468,11 @@ class C07(Check):
     def _view(self, case, ia, ref):
         if ref is None:
             return ia
-        out = {"cov": [snap(o, r) for o, r in zip(ia["cov"], ref["cov"])],
-               "avg": [snap(o, r) for o, r in zip(ia["avg"], ref["avg"])],
-               "dist": [snap(o, r) for o, r in zip(ia["dist"], ref["dist"])],
-               "div": snap(ia["div"], ref["div"]),
+        tol = Fraction(1, 10 ** 9) if any(c < 0 for (_, c) in case[0]) else 0
+        out = {"cov": [snap(o, r, tol) for o, r in zip(ia["cov"], ref["cov"])],
+               "avg": [snap(o, r, tol) for o, r in zip(ia["avg"], ref["avg"])],
+               "dist": [snap(o, r, tol) for o, r in zip(ia["dist"], ref["dist"])],
+               "div": snap(ia["div"], ref["div"], tol),
                "plats": ia["plats"]}
         if "report" in ia:
             rep = {}
@@ -430,6 +486,8 @@ class C07(Check):
                 else:
                     rep[k] = v
             out["report"] = rep
+        if "meta" in ia:
+            out["meta"] = ia["meta"]
         return out
 
     def impl_view_for_model(self, case, ia):
